@@ -1050,6 +1050,7 @@ func replay(mode, path string) {
 				continue
 			}
 			if !isMutator(o[0]) {
+				rn.step(o, false) // an observer kept by the minimiser (the one that failed)
 				continue
 			}
 			rn.step(o, true)
